@@ -59,6 +59,8 @@ def check(rep, an, tier):
                              msg="`initial=` adds a phantom sample to every projection: with center=True (no mean subtraction) the result is the "
                                  "mean width of hull(X ∪ {initial}) — not translation invariant, and different from the loop path")
             R.rule_purity(rep, res, entry)
+            R.rule_index_space(rep, res, entry)
+            R.rule_dtype(rep, res, entry)
     # ---- gamut metric: degree 0; self-ratio forwarding
     for metric in ("width", "volume"):
         for rel_to in (None, "given"):
@@ -197,6 +199,7 @@ def check(rep, an, tier):
                       relative=flag("relative", rel))
             res = an.run(f"{EST}.compute_hull", kws=kw, self_fields=fields, config=cfgname(dict(relative=rel, fraction=frac)))
             entry = "ReceptorEstimator.compute_hull"
+            R.rule_pair_orientation(rep, res, entry)
             calls = [ev for ev in res.events("call") if ev.d["callee"].name == "compute_gamut" and ev.fn.cls]
             rep.check("R-FORWARD", "compute_hull → compute_gamut", bool(calls), where=res.fn.loc(), construct="compute_gamut(P, …)", entry=entry,
                       config=res.config)
